@@ -584,7 +584,9 @@ def newtontrustregion(f, x0, jac=None, tol=None, verbose=False, maxiter=200, jac
         else:
             Jf0, (Jf1, Jinv) = Jf1, broyden_update_jac(Jf1, dx, F1 - F0, Jinv)
         xtol = tol * (xdim + D.ar_numpy.linalg.norm(x))
-        success = dxn <= 0.8 * xtol
+        # A small step only certifies a solution together with a residual at the level of the tolerance,
+        # it also occurs when the iteration stagnates (e.g. next to a singular Jacobian)
+        success = dxn <= 0.8 * xtol and Fn1 <= xtol
         success = success or Fn1 < 0.8 * tol
         convergence_failure = not D.ar_numpy.isfinite(dxn) or fail_iter > 2
         if success or convergence_failure:
